@@ -425,6 +425,16 @@ func genBits(mode string, n int, seed int64) []bool {
 		for i := range b {
 			b[i] = rng.Float64() < th
 		}
+	case "dombyte": // one byte value dominates (70 % of the bytes are 0xA5): pattern counts far above 2^16 at 10^6 bits
+		for i := 0; i+8 <= n; i += 8 {
+			v := byte(rng.Intn(256))
+			if rng.Float64() < 0.7 {
+				v = 0xA5
+			}
+			for k := 0; k < 8; k++ {
+				b[i+k] = v&(0x80>>uint(k)) != 0
+			}
+		}
 	case "runsbias": // sticky source: repeats the previous bit with probability 0.55
 		cur := rng.Intn(2) == 1
 		for i := range b {
